@@ -46,3 +46,14 @@ pub open spec fn ctor_updated(c: Constructor, t: Ty, r: Constructor) -> bool {
         Constructor::Struct(s) => (if (t is TStruct || t is TApp) { r matches Constructor::Struct(s2) && Some(s2.type_name.0@) == new_type_name(t) } else { r == c }),
     }
 }
+// ---- enum_constructor_info: the FIRST variant of that name ----
+#[verifier::external_body] pub fn ident_eq(a: &TastIdent, b: &TastIdent) -> (r: bool) ensures r == (a.0@ == b.0@) { unimplemented!() }      // derived PartialEq on TastIdent: the text
+pub open spec fn first_variant(d: EnumDef, c: TastIdent, k: int) -> int
+    decreases d.variants@.len() - k,
+{
+    if k < 0 || k >= d.variants@.len() { d.variants@.len() as int } else if d.variants@[k].0.0@ == c.0@ { k } else { first_variant(d, c, k + 1) }
+}
+pub open spec fn variant_ctor_ok(enum_name: TastIdent, d: EnumDef, c: TastIdent, r: Option<(Constructor, Ty)>) -> bool {
+    let i = first_variant(d, c, 0);
+    if i < d.variants@.len() { r matches Some(p) && enum_ctor_ok(enum_name, d, i, p) } else { r is None }
+}
